@@ -14,6 +14,18 @@ def parseReq : Sexp → Option Registry.Entry
   | .list [.atom name, .atom "array", b, l, st] => do some (name, .array (← b.nat?) (some (← l.nat?)) (← st.nat?))
   | .list [.atom name, .atom "pointer", b, sp] => do some (name, .pointer (← b.nat?) (← sp.nat?))
   | .list [.atom name, .atom "atomic", k, w] => do some (name, .atomic (← k.nat?) (← w.nat?))
+  | .list [.atom name, .atom "struct", span, .list ms] => do
+    let members ← ms.mapM (fun m => match m with
+      | .list [.atom n, t, o] => do some (n, (← t.nat?), (← o.nat?))
+      | _ => none)
+    some (name, .struct members (← span.nat?))
+  | .list [.atom name, .atom "sampler", c] => do some (name, .sampler ((← c.nat?) != 0))
+  | .list [.atom name, .atom "image", d, a, c, m, f, acc, k] => do
+    some (name, .image (← d.nat?) ((← a.nat?) != 0) (← c.nat?) ((← m.nat?) != 0) (← f.nat?) (← acc.nat?) (← k.nat?))
+  | .list [.atom name, .atom "accel"] => some (name, .accel)
+  | .list [.atom name, .atom "rayquery"] => some (name, .rayQuery)
+  | .list [.atom name, .atom "bindingarray", b, .atom "unbounded"] => do some (name, .bindingArray (← b.nat?) none)
+  | .list [.atom name, .atom "bindingarray", b, n] => do some (name, .bindingArray (← b.nat?) (some (← n.nat?)))
   | _ => none
 
 /-- `(c09 (typed …))` ↦ `wf` or the diagnostics of the strict validator. -/
